@@ -128,6 +128,19 @@ CHECKS = {
           "is checked by the oracle for the instruments it uses, not for all 128 names. Channel-allocation facts are examples + correspondence, "
           "not a theorem; more than 15 programs (channel overflow) is not explored.",
  },
+ "C08": {
+  "text": "Theorems: every cell of the exporter's three spelling tables (M, m, mm: 12 tonics x 7 degrees, regenerated from to_mxl.SCALES) names "
+          "the pitch class of its scale degree, the only names crossing an octave boundary being B# and Cb (kernel sweep); hence for EVERY pitch "
+          "p in Z and every chord in any of the nine modes the written note (name + octave, church modes spelled by pitch class) has MIDI number "
+          "60 + p - spelling may differ enharmonically, the sounding pitch never does. The tie/rest state machine of Score.to_music21 (ties to "
+          "the previous element, absent part = rest, padding of short parts, rest flag) is modelled and compared element by element with the "
+          "music21 stream; the oracle merges tied elements and compares (onset, pitch, duration) with C03's sounding notes of the implementation. "
+          "Four defects of the exporter were repaired (church modes KeyError, continuation after the first note of a chord, short parts, stale rest flag).",
+  "note": "Partial: the equality voice = sounding notes is decided by correspondence + oracle, not by a theorem. Trusted: Coq kernel; gen_tables "
+          "(MXL_SPELLING, NOTES_TO_ROOT); music21's pitch arithmetic (nameWithOctave -> midi) and stream offsets; adapters. Not explored: the "
+          "MusicXML file written by music21 (needs its writer; the stream handed to it is what is checked), continuation after a gap left by a "
+          "shorter part (ill-defined in C03's own terms), pitches outside 0..127.",
+ },
  "C14": {
   "text": "Theorems: for EVERY chord and EVERY pitch in Z, Chord.parse then Chord.to_pitch is the identity, the result is a scale note "
           "iff the pitch class is in the chord scale, with a normalised value; for a monophonic voice the melody _parse_voice writes for a "
